@@ -224,6 +224,9 @@ class VFSZip(VFS_Real):
                 else:
                     newsymlinkinodes.append(item)
             symlinkinodes = newsymlinkinodes
+            # A lookup that failed while other links were still unresolved
+            # must not be remembered as a miss.
+            self.invalid_paths.clear()
 
     def _islinkinfo(self, info: zipfile.ZipInfo) -> bool:
         return stat.S_ISLNK(info.external_attr >> 16)
